@@ -19,6 +19,8 @@ import tempfile
 from .. import common as C
 from ..flow import Flow
 
+CAPY_TIMEOUT = 240
+
 MSG = [
     (re.compile(r"^error: `(.*)` couldn't be found$"), "notfound"),
     (re.compile(r"^error: `(.*)` is outside the current working module$"), "outside"),
@@ -94,6 +96,28 @@ def gen_tree(rng, root):
         n = rng.range(0, 3) if f != t.cwd + "/main.capy" else rng.range(1, 4)
         for _ in range(n):
             t.files[f].append(gen_directive(rng, t, f, allf, clean_only))
+    return t
+
+
+def fixed_tree(root):
+    """regression tree, always run first: cycle, self import, `..`, module with and without mod.capy,
+    `#mod("")` with <mod-dir>/src/mod.capy present (known finding C28-1), every rejection reason."""
+    t = Tree(root)
+    t.dirs += [t.cwd + "/d1", t.mod + "/m1", t.mod + "/m1/src", t.mod + "/m2", t.mod + "/m3", t.mod + "/m3/src", t.mod + "/src"]
+    t.other.append(t.cwd + "/a.txt")
+    t.files = {
+        t.cwd + "/main.capy": [("I", "d1/a.capy"), ("M", "m1"), ("M", ""), ("I", "./main.capy")],
+        t.cwd + "/d1/a.capy": [("I", "../main.capy"), ("I", "a.capy"), ("I", "../b.capy"), ("I", "nothere.capy"),
+                                ("I", "../a.txt"), ("I", "../../out/o.capy"), ("M", "m2"), ("M", "m3"), ("M", "m-1"),
+                                ("i0", ""), ("m2", ""), ("IX", "")],
+        t.cwd + "/b.capy": [("I", "x/../d1//a.capy")],
+        t.cwd + "/unreachable.capy": [("I", "main.capy")],
+        t.mod + "/m1/src/mod.capy": [("I", "../../../w/b.capy")],
+        t.mod + "/src/mod.capy": [],
+        root + "/out/o.capy": [],
+    }
+    for k, f in enumerate(sorted(t.files)):
+        t.ids[f] = k + 1
     return t
 
 
@@ -249,8 +273,9 @@ def model_line(t):
 
 
 def run_capy(capy, t):
-    rc, out = C.run([capy, "build", "main.capy", "--mod-dir", "../mods", "--verbose-hir", "all", "--color", "never"],
-                    cwd=t.cwd, timeout=120)
+    # output capped (a work list that never terminates prints forever): head closes the pipe
+    rc, out = C.run(["bash", "-c", "set -o pipefail; '%s' build main.capy --mod-dir ../mods --verbose-hir all "
+                     "--color never 2>&1 | head -c 600000" % capy], cwd=t.cwd, timeout=CAPY_TIMEOUT)
     lines = [l for l in out.split("\n") if not l.startswith("split_aggregate")]
     events = []
     res = {}           # file -> {k: ('A', path) | ('M',)}
@@ -291,7 +316,8 @@ def run_capy(capy, t):
         rc2, _ = C.run([t.cwd + "/out/main"], cwd=t.cwd, timeout=20)
         status = "ran:%d" % rc2
     panicked = any("panicked at" in l for l in lines)
-    return {"events": events, "res": res, "diags": diags, "status": status, "panicked": panicked,
+    completed = any(l.startswith("not compiling due to") or l.startswith("Finalizing") for l in lines)
+    return {"events": events, "res": res, "diags": diags, "status": status, "panicked": panicked, "completed": completed,
             "tail": "\n".join(lines[-25:])}
 
 
@@ -312,7 +338,7 @@ def one_case(args):
     root = tempfile.mkdtemp(prefix="verif-c28-")
     root = os.path.realpath(root)
     try:
-        t = gen_tree(seed_rng, root)
+        t = fixed_tree(root) if idx == 0 else gen_tree(seed_rng, root)
         write_tree(t)
         ml = model_line(t)
         out = run_capy(capy, t)
@@ -349,7 +375,7 @@ def run(tier, seed):
 
 def _stream(fl, v, tier, drv, capy):
     cov = v.coverage
-    n = 260 if tier == "quick" else 3000
+    n = 260 if tier == "quick" else 2000
     rng = fl.rng.fork("trees")
     jobs = [(capy, rng.fork("t%d" % i), i) for i in range(n)]
     results = C.parallel_map(one_case, jobs)
@@ -361,6 +387,7 @@ def _stream(fl, v, tier, drv, capy):
     built = 0
     nontrivial = 0
     dir_cases = 0
+    timeouts = [0]
     vc = {}
 
     def failing(cls, payload):
@@ -396,8 +423,22 @@ def _stream(fl, v, tier, drv, capy):
         if sorted(ievents) != sorted(mevents) and case_diff is None:
             case_diff = {"what": "compile events differ", "implementation": [rel(x) for x in ievents],
                          "model": [rel(x) for x in mevents]}
+        # ---- did the work list terminate, each file once? ----
+        dup = sorted(set(x for x in ievents if ievents.count(x) > 1))
+        abnormal = bool(dup) or (not out["completed"] and out["status"] != "rc124")
+        if dup:
+            failing("file-compiled-more-than-once",
+                    dict(ctx, key="dup:" + C.sha(json.dumps(ctx, sort_keys=True)),
+                         what="a file is compiled more than once (output capped at 600 kB)",
+                         compiled_counts={rel(x): ievents.count(x) for x in dup}, status=out["status"]))
+        elif abnormal and not out["panicked"]:
+            failing("compilation-did-not-complete",
+                    dict(ctx, key="incomplete:" + C.sha(json.dumps(ctx, sort_keys=True)),
+                         what="capy stopped before the diagnostics/finalizing phase", status=out["status"], tail=out["tail"][-600:]))
+        if abnormal and case_diff is None:
+            case_diff = {"what": "compilation did not complete normally", "status": out["status"], "tail": out["tail"][-600:]}
         # ---- per directive ----
-        decision_failed = False
+        decision_failed = abnormal
         for f in sorted(t.files):
             if f not in ievents:
                 continue
@@ -411,6 +452,8 @@ def _stream(fl, v, tier, drv, capy):
                         impl += "+diag"
                 else:
                     kinds = [d[0] for d in ds]
+                    if not kinds and abnormal:
+                        continue          # diagnostics were never printed
                     if not kinds:
                         impl = "Rsilent" if got is not None else "?"
                     else:
@@ -488,7 +531,9 @@ def _stream(fl, v, tier, drv, capy):
             acc = [o for o in oracle[t.cwd + "/main.capy"] if o[0] == "A"][:2]
             want = sum((7 ** j) * t.ids[o[1]] for j, o in enumerate(acc)) % 256
             built += 1
-            if out["status"] != "ran:%d" % want:
+            if out["status"] == "rc124":
+                timeouts[0] += 1          # machine overloaded: inconclusive, counted in the evidence
+            elif out["status"] != "ran:%d" % want:
                 if case_diff is None:
                     case_diff = {"what": "exit status differs", "implementation": out["status"], "expected": "ran:%d" % want,
                                  "tail": out["tail"][-800:]}
@@ -507,6 +552,7 @@ def _stream(fl, v, tier, drv, capy):
     cov["directive_outcomes"] = hist
     cov["files_per_tree"] = files_hist
     cov["programs_built_and_run"] = built
+    cov["capy_timeouts"] = timeouts[0]
     cov["rule"] = ("%d generated trees (<= 6 .capy files, <= 3 directories below cwd, module dir with good/src-less/"
                    "mod.capy-less modules, outside dir); every directive of every compiled file is one evaluation; "
                    "non-trivial = at least one import is followed (>= 2 files compiled)" % len(results))
